@@ -132,6 +132,13 @@ func init() {
 			}
 			return ""
 		},
+		// the same defect takes the result out of [0,100] from the second output on
+		KF15: func(cfg []int, n, o, k int) string {
+			if k > 0 {
+				return "KF-C15-aroon-out-of-range"
+			}
+			return ""
+		},
 	})
 
 	// Bop: BOP = (Closing - Opening) / (High - Low). No IdlePeriod method; warm-up 0.
